@@ -15,7 +15,9 @@
 (* that mu that enters H.  The relations hold on every public route that   *)
 (* computes the structure, in every length unit it is asked to return      *)
 (* (HydroStepRelUnit), and they still hold after the model has been        *)
-(* evaluated (evaluation only reads the structure).                        *)
+(* evaluated (evaluation only reads the structure), whatever the TYPE of   *)
+(* the components the model is assembled from: a component only reads the  *)
+(* arrays the model shares with it (RepeatableRel, TempComponentKinds).    *)
 (*                                                                         *)
 (* The relations are written once, in cross-multiplied form (no division), *)
 (* over an abstract arithmetic (Mul, Add, Same, Lt passed as operators).   *)
@@ -105,6 +107,31 @@ WeightedMeanRel(Mul(_, _), Add(_, _), Same(_, _), zero, muk, mix, k, w) ==
 
 \* ------------------------------------------------------------- ideal gas
 DensityRel(Mul(_, _), Same(_, _), rho, P, T, kB) == Same(Mul(Mul(rho, kB), T), P)
+
+\* ------------------------------------- components and the arrays they share
+\* A forward model is assembled from COMPONENTS of any built-in type (pressure grid, temperature
+\* profile, chemistry and its gases, contributions).  The model hands its OWN per-layer arrays to
+\* them -- the layer pressures to the temperature profile, pressures + temperature + altitude to the
+\* chemistry and every gas -- not copies.  A component may only READ what it is handed: whatever the
+\* component type, the layer pressure stays the geometric mean of ITS two levels, density stays
+\* P/(kT) of the exposed P and T, and reading an exposed array twice with nothing set in between
+\* gives the same array twice (RepeatableRel: entry by entry, exactly -- no tolerance); an array
+\* handed to a public call is, after the call, what it was before.
+RepeatableRel(first, second) ==
+    /\ Len(first) = Len(second)
+    /\ \A k \in 1..Len(first) : first[k] = second[k]
+\* The built-in temperature components that can be TOLD the temperature of every layer (T[1..n]):
+\* each of them exposes exactly T, so the structure that follows from T is the same whichever is used
+\* (array: one value per layer; array_ppoints / file_pcol: (P, T) nodes given at the layer pressures;
+\* file: one value per line; rodgers_identity: layer-by-layer profile with an identity covariance;
+\* npoint_nodes: surface, top and the layers in between as (P, T) nodes, no smoothing;
+\* isothermal: one number, expressible only if T is constant).  Guillot2010, a smoothed NPoint and a
+\* correlated Rodgers2000 cannot be told T; for them (binding B) T is whatever they expose.
+TempComponentKinds(T) ==
+    {"array", "file", "rodgers_identity"}
+    \cup (IF Len(T) >= 2 THEN {"array_ppoints", "file_pcol"} ELSE {})
+    \cup (IF Len(T) <= 3 THEN {"npoint_nodes"} ELSE {})
+    \cup (IF \A k \in 1..Len(T) : T[k] = T[1] THEN {"isothermal"} ELSE {})
 
 \* ------------------------------------------------- profile bookkeeping
 \* per-layer quantities the model exposes (attributes) and stores (generate_profiles())
